@@ -138,9 +138,13 @@ def verdict_names(stdout):
 def arg_lists(tree, tier):
     ps = [p for p, k in paths_of(tree)]
     base = ps + [".", "missing.c"]
+    extra_missing = ["missing.txt", "nodir", "src2/gone.h"]
     yield ()
-    for a in base:
+    for a in base + extra_missing:
         yield (a,)
+    for m in extra_missing:
+        yield (ps[0], m)
+        yield (m, ps[0])
     pairs = list(itertools.product(base, repeat=2))
     if tier == "quick" or len(base) > 6:
         pairs = [(a, b) for a, b in pairs if a == b or a in (".",) or b in ("missing.c",) or (a, b) == (ps[0], ps[-1])]
@@ -223,7 +227,7 @@ def feature(tree, args):
     shape = []
     kinds = dict(paths_of(tree))
     for a in args:
-        shape.append("dot" if a == "." else "missing" if a == "missing.c" else
+        shape.append("dot" if a == "." else "missing" if a == "missing.c" else "missing-other-suffix" if a in ("missing.txt", "nodir", "src2/gone.h") else
                      ("dir" if kinds.get(a) == "d" else "file:" + os.path.splitext(a)[1]))
     return "+".join(sorted(set(f))) or "plain", ",".join(shape) or "noargs"
 
